@@ -171,6 +171,25 @@ def rule_key_table(ctx, crate, rule="R-KEY-TABLE"):
         return
     pos_calls = b.calls(r"state::ProgressState::pos")
     uo = [c for c in b.calls(r"std::option::Option::<T>::(unwrap_or|map_or|map_or_else|unwrap_or_else)") if b.slice_args(c, [0], through_calls=False).has_call(r"state::ProgressState::len")]
+    if len(pos_calls) == 1 and not uo:
+        # the explicit form: `let len = match state.len() { Some(len) => len, None => pos }`
+        alt = _len_by_match(b, pos_calls[0].dest["l"])
+        if alt:
+            len_c, len_loc, why_some, why_none = alt
+            pos_l, len_l = pos_calls[0].dest["l"], len_loc
+            ctx.check(why_none is None, rule, "len-defaults-to-pos", b.name, len_c.loc(), "len = match state.len() { Some(l) => l, None => pos }",
+                      "a missing length does not render as the position: %s" % why_none, cfg)
+            for c, what in ((pos_calls[0], "position"), (len_c, "length default")):
+                ctx.check(not b.in_loop(c.bb), rule, "sampled-once-per-frame:%s" % what.split()[0], b.name, c.loc(),
+                          "the %s is read once per frame, before the loop over the template parts" % what,
+                          "the %s is re-read for every placeholder: an update between two placeholders makes one frame show two different positions" % what, cfg)
+            ctx.check(why_some is None, rule, "len-is-the-length", b.name, len_c.loc(), "a known length is rendered unmodified",
+                      "the length used by the len/total keys is not ProgressBar::length(): %s" % why_some, cfg)
+            for c in pos_calls + [x for x in b.calls(r"state::ProgressState::len")]:
+                ctx.check(b.slice_args(c, [0]).params() == {2}, rule, "reads-live-state:%s" % K.meth(c.path), b.name, c.loc(),
+                          "%s() is read from the state being drawn" % K.meth(c.path), "%s() is read from another state" % K.meth(c.path), cfg)
+            _key_arms_part(ctx, crate, rule, b, pos_l, len_l)
+            return
     if len(pos_calls) != 1 or len(uo) != 1:
         ctx.lost(rule, cfg, "cannot identify the pos / len locals of format_state (pos() calls: %d, len() defaulting calls: %d)" % (len(pos_calls), len(uo)))
         return
@@ -202,6 +221,49 @@ def rule_key_table(ctx, crate, rule="R-KEY-TABLE"):
     for c in pos_calls + [x for x in b.calls(r"state::ProgressState::len")]:
         ctx.check(b.slice_args(c, [0]).params() == {2}, rule, "reads-live-state:%s" % K.meth(c.path), b.name, c.loc(),
                   "%s() is read from the state being drawn" % K.meth(c.path), "%s() is read from another state" % K.meth(c.path), cfg)
+    _key_arms_part(ctx, crate, rule, b, pos_l, len_l)
+
+
+def _len_by_match(b, pos_l):
+    """`match state.len() { Some(l) => l, None => pos }`: (the len() call, the local holding the result, problem with the
+    Some arm | None, problem with the None arm | None), or None when the shape is not there."""
+    for c in b.calls(r"state::ProgressState::len"):
+        L = c.dest["l"]
+        if c.dest["p"]:
+            continue
+        for l, ds in b.defs().items():
+            ds = [d for d in ds if d["kind"] == "assign" and not d["lhs"]["p"]]
+            if len(ds) != 2 or b.locals[l]["ty"] != "u64":
+                continue
+            some = [d for d in ds if d["rv"]["k"] == "use" and d["rv"]["op"].get("k") in ("copy", "move") and d["rv"]["op"]["place"]["l"] == L
+                    and [e for e in d["rv"]["op"]["place"]["p"] if isinstance(e, dict) and "f" in e]]
+            # the payload may first be bound to a pattern local
+            if not some:
+                for d in ds:
+                    ol = operand_local(d["rv"]["op"]) if d["rv"]["k"] == "use" else None
+                    dd = [x for x in b.defs().get(ol, ()) if x["kind"] == "assign"] if ol is not None and not d["rv"]["op"]["place"]["p"] else []
+                    if len(dd) == 1 and dd[0]["rv"]["k"] == "use" and dd[0]["rv"]["op"].get("k") in ("copy", "move") and dd[0]["rv"]["op"]["place"]["l"] == L \
+                            and [e for e in dd[0]["rv"]["op"]["place"]["p"] if isinstance(e, dict) and "f" in e]:
+                        some = [d]
+            none = [d for d in ds if d not in some]
+            if len(some) != 1 or len(none) != 1:
+                continue
+            nd = none[0]
+            why_none = None
+            sl = b.slice_rv(nd["bb"], {"lhs": nd["lhs"], "rv": nd["rv"]}, through_calls=False)
+            if pos_l not in sl.locals or [a for a in sl.atoms if a[0] in ("binop", "unop")] or [k for k in sl.calls if k.dest["l"] != pos_l]:
+                why_none = "the None arm does not yield the sampled position unchanged"
+            sd = some[0]
+            ssl = b.slice_rv(sd["bb"], {"lhs": sd["lhs"], "rv": sd["rv"]}, through_calls=False)
+            why_some = None
+            if [a for a in ssl.atoms if a[0] in ("binop", "unop")] or [k for k in ssl.calls if k.dest["l"] != L]:
+                why_some = "the Some arm modifies the length"
+            return c, l, why_some, why_none
+    return None
+
+
+def _key_arms_part(ctx, crate, rule, b, pos_l, len_l):
+    cfg = crate.config
     arms = key_arms(b)
     docs = documented_keys()
     ctx.floor(rule, len(arms), 28, cfg, "key arms in format_state")
